@@ -157,7 +157,8 @@ fn shared_secret(private: &StaticSecret, epub: &[u8; 32]) -> [u8; 32] {
 /// the session key.
 pub fn archive_model_call(plan: &Plan, built: &Built, cut: usize, unauth: bool, sched: &[usize], full_ecies: bool) -> (&'static str, Vec<Value>) {
     if plan.layers & L_COMP != 0 {
-        return ("", vec![]);
+        // archives with the compression layer: the body-level entry points of RunFsStack.v (work package fsstack)
+        return crate::repair::model_call(plan, built, cut, unauth);
     }
     let pre = &built.bytes[..cut];
     let enc = plan.layers & L_ENC != 0;
